@@ -392,8 +392,6 @@ def canaries(tier):
          'patches': [(_F, 'points = ["{},{}".format(int(np.round(coord[0])), int(np.round(coord[1]))) for coord in self.polygon]', 'points = ["{},{}".format(int(coord[0]), int(coord[1])) for coord in self.polygon]')],
          'tasks': q},
         {'name': 'heights printed without decimals', 'patches': [(_F, 'heights_v2:[{line.heights[0]:.1f},{line.heights[1]:.1f}]', 'heights_v2:[{line.heights[0]:.0f},{line.heights[1]:.0f}]')], 'tasks': q},
-        {'name': 'line index fallback dropped on import', 'patches': [(_F, '                if new_textline.index is None:\n                    new_textline.index = line_i\n', '')],
-         'tasks': q, 'error_counts': True},
         {'name': 'empty transcription read back as None', 'patches': [(_F, "                    if t_unicode is None:\n                        t_unicode = ''\n", '')], 'tasks': q},
         {'name': 'confidence of exactly 0 dropped on export', 'patches': [(_F, 'if line.transcription_confidence is not None:\n                        text_element.set("conf"', 'if line.transcription_confidence:\n                        text_element.set("conf"')],
          'tasks': q},
